@@ -621,6 +621,13 @@ def finish(ctx, level, coverage_extra, trusted_base, assumptions, checker_cmd):
         seen.add(key)
         log("VIOLATION property=%s replay=%s%s" % (ctx.prop_id, v["replay"],
                                                    "" if v["found_input"] else " no-failing-input-found"))
+    if not unlisted and seen_known:
+        # every difference this run met is a listed known finding: the correspondence obligations that failed only
+        # because of them count as discharged *except for* those findings, which the evidence names
+        sigs = ", ".join(sorted(seen_known))
+        ctx.obligations = [(n + " [except the listed known finding(s): " + sigs + "]", True, d)
+                           if (not ok and n in ctx.reported_obligations) else (n, ok, d)
+                           for n, ok, d in ctx.obligations]
     nobl = len(ctx.obligations)
     ndis = len([o for o in ctx.obligations if o[1]])
     cov = {
